@@ -211,61 +211,25 @@ fn random_state_stub() -> std::collections::hash_map::RandomState {
     unsafe { std::mem::transmute([0u64; 2]) }
 }
 
-fn cmd_parse_nopanic_n<const LEN: usize>() {
-    let buf: [u8; LEN] = kani::any();
+/// Checks assumed region A-REGION-2 (the `match &buf[..command_len] { b"READY" => .. }` statement that the
+/// Verus unit replaces by a stub) on the REAL function: for every command body that consists of a name only
+/// (name-size octet + up to 6 name octets, no properties), try_from is Ok exactly for the name READY.
+/// COMPLETE for that domain (the property loop is not entered).
+#[kani::proof]
+#[kani::unwind(8)]
+#[kani::stub(std::collections::HashMap::insert, hm_insert_stub)]
+#[kani::stub(std::collections::hash_map::RandomState::new, random_state_stub)]
+fn cmd_name_only() {
+    let buf: [u8; 7] = kani::any();
     let n: usize = kani::any();
-    kani::assume(n <= LEN);
+    kani::assume(n >= 1 && n <= 7);
+    kani::assume(buf[0] as usize == n - 1);
     let b = Bytes::copy_from_slice(&buf[..n]);
     let r = ZmqCommand::try_from(b);
-    kani::cover!(r.is_ok(), "a well-formed READY is reachable");
-    kani::cover!(r.is_err(), "a malformed command is reachable");
+    let is_ready = &buf[1..n] == b"READY";
+    let ok = r.is_ok();
+    kani::cover!(ok, "READY is reachable");
+    kani::cover!(!ok, "another name is reachable");
     std::mem::forget(r);
-}
-
-/// BOUNDED: all command bodies of length <= 12 (READY + one property with a 1 octet name and value)
-#[kani::proof]
-#[kani::unwind(14)]
-#[kani::stub(std::collections::HashMap::insert, hm_insert_stub)]
-#[kani::stub(std::collections::hash_map::RandomState::new, random_state_stub)]
-fn cmd_parse_nopanic() {
-    cmd_parse_nopanic_n::<12>();
-}
-
-fn cmd_parse_ascii_n<const LEN: usize>() {
-    let buf: [u8; LEN] = kani::any();
-    let n: usize = kani::any();
-    kani::assume(n <= LEN);
-    let mut i = 0;
-    while i < LEN {
-        kani::assume(buf[i] < 0x80);
-        i += 1;
-    }
-    let b = Bytes::copy_from_slice(&buf[..n]);
-    let r = ZmqCommand::try_from(b);
-    std::mem::forget(r);
-}
-#[kani::proof]
-#[kani::unwind(10)]
-#[kani::stub(std::collections::HashMap::insert, hm_insert_stub)]
-#[kani::stub(std::collections::hash_map::RandomState::new, random_state_stub)]
-fn tmp_cmd8() {
-    cmd_parse_nopanic_n::<8>();
-}
-#[kani::proof]
-#[kani::unwind(14)]
-#[kani::stub(std::collections::HashMap::insert, hm_insert_stub)]
-#[kani::stub(std::collections::hash_map::RandomState::new, random_state_stub)]
-fn tmp_cmd12_ascii() {
-    cmd_parse_ascii_n::<12>();
-}
-fn from_utf8_stub(_v: Vec<u8>) -> Result<String, std::string::FromUtf8Error> {
-    Ok(String::new())
-}
-#[kani::proof]
-#[kani::unwind(14)]
-#[kani::stub(std::collections::HashMap::insert, hm_insert_stub)]
-#[kani::stub(std::collections::hash_map::RandomState::new, random_state_stub)]
-#[kani::stub(std::string::String::from_utf8, from_utf8_stub)]
-fn tmp_cmd12_noutf8() {
-    cmd_parse_nopanic_n::<12>();
+    assert!(ok == is_ready, "command name match disagrees with the literal READY");
 }
